@@ -174,6 +174,9 @@ class Type:
             raise NotImplementedError((self.kind, other.kind))
         # TODO: array type support
         bits = max([t.bits for t in [self, other] if t.kind == kind and t.bits is not None] or [None])
+        if kind == "complex" and bits is not None:
+            # the parts of the complex result must hold a real operand
+            bits = max([bits] + [2 * t.bits for t in [self, other] if t.kind == "float" and t.bits is not None])
         return type(self)(self.context, kind, bits)
 
     @property
